@@ -11,7 +11,8 @@ EXPLANATION = (
     "failed; undo_write_tdb reads and records a block only if it was not recorded before (first write wins), marks it and "
     "rewrites the indexes; undo_close stores the FINISHED marker before the final flushed index write and nobody else "
     "stores it; all six tools install the manager the same way and never remove or truncate a user-named undo file (it is "
-    "re-opened and appended to); re-opening an undo file validates header magic/CRC/"
+    "re-opened and appended to); whoever raises the key count of the current key block passes the block-full step before "
+    "returning (the key array is indexed without a bound); re-opening an undo file validates header magic/CRC/"
     "geometry/features/superblock and every key block before use; e2undo performs all checksum comparisons before its "
     "first device write, leaves on any mismatch unless forced, and never writes under -n.  Decides the discipline on all "
     "paths; does not decide the key/extent arithmetic of undo_write_tdb.")
@@ -342,6 +343,51 @@ def run(world, rep, tier, only=None):
                "%d remover call(s) exist on the default-name path%s" % (
                    fname, len(removers), "; reached: %s" % [h.text()[:40] for h in hit] if hit else ""), witness=wit)
     rep.floor("C12.h setup functions with a name test", n_lit, 6)
+
+    # ------------------------------------------------------------------ C12.i a full key block is left behind
+    # keys[] holds KEYS_PER_BLOCK entries; the writer indexes it with keys_in_block without a bound,
+    # relying on the invariant keys_in_block < KEYS_PER_BLOCK between operations.  Every function
+    # that can raise the count must therefore pass the "block full -> start a fresh one" step
+    # (itself or through a callee) before it returns successfully.
+    def _kib(e):
+        lf = T.last_field(e)
+        return lf is not None and lf[1] == "keys_in_block"
+    def _full_test(f):
+        out = []
+        for bid in f.blocks:
+            lit = f.literal(bid)
+            if lit and "keys_in_block" in T.field_names(lit[0]) and (
+                    "KEYS_PER_BLOCK" in T.macros(lit[0]) or "keys_per_block" in T.vars_in(lit[0])):
+                out.append(f.block_end(bid))
+        return out
+    must_full = set()
+    for f in ufile.values():
+        ft = _full_test(f)
+        resets = [n for n in f.events("S") if _kib(n.ev["lhs"]) and T.const(n.ev.get("rhs")) == 0]
+        if ft and any(any(r_ in f.reach(f.after(t_)) for r_ in resets) for t_ in ft):
+            must_full.add(f.name)
+    n_raise = 0
+    for f in ufile.values():
+        raises = [n for n in f.events("S") if _kib(n.ev["lhs"]) and not (T.const(n.ev.get("rhs")) == 0 and n.ev.get("o") == "=")]
+        if not raises:
+            continue
+        through = list(_full_test(f)) + [c for c in f.call_nodes() if c.ev["x"].get("fn") in must_full]
+        ex = absint.Explorer(f, prog)
+
+        def seen_k(node, env, flags, _r=raises, _t=through):
+            if node in _r:
+                return (flags - {"tested"}) | {"raised"}
+            if node in _t and "raised" in flags:
+                return flags | {"tested"}
+            return flags
+        terms = ex.run([f.entry_node()], on_node=seen_k)
+        bad = sorted({node.line for (node, env, fl, st) in terms if node.ev and node.ev["e"] == "R" and "raised" in fl and
+                      "tested" not in fl and absint._z(ex.eval(node.ev.get("x"), env))})
+        n_raise += 1
+        rep.ob("C12.i", site(f, "a raised key count passes the block-full step before success"), not bad,
+               "successful returns after keys_in_block was raised without `keys_in_block == KEYS_PER_BLOCK -> fresh block` "
+               "(directly or via %s): lines %s" % (sorted(must_full), bad))
+    rep.floor("C12.i functions raising keys_in_block", n_raise, 2)
 
     # ------------------------------------------------------------------ C12.e
     tr = ufile.get("try_reopen_undo_file")
